@@ -3,7 +3,10 @@ package c19
 import (
 	"context"
 	"fmt"
+	"google.golang.org/grpc/codes"
+	"google.golang.org/grpc/status"
 	"math"
+	"slices"
 	"testing"
 	"time"
 
@@ -47,6 +50,14 @@ type ProxyCase struct {
 	// aggregation.  Keyword tokens keep their bytes; the finished asynchronous search has to
 	// report the same groups as the synchronous one.
 	BadUTF8 bool `json:"bad_utf8,omitempty"`
+	// Replicas per shard (0 = 1); every replica holds the shard's documents.
+	Replicas int `json:"replicas,omitempty"`
+	// RefuseStart: bit shard*4+replica set = that replica answers Unavailable while the search is
+	// started (and works again afterwards).  When a shard has no replica left that took the
+	// request, the start must not hand out a search id whose result is then presented as done
+	// without that shard: whatever StartAsyncSearch answers, a finished result holds every
+	// matching document.
+	RefuseStart uint32 `json:"refuse_start,omitempty"`
 }
 
 func genProxy(t *rapid.T) ProxyCase {
@@ -67,6 +78,26 @@ func genProxy(t *rapid.T) ProxyCase {
 	c.Aggs = gen.AggSpecs(t, 2)
 	c.NaNQuantile = rapid.IntRange(0, 19).Draw(t, "nanquantile") == 19
 	c.BadUTF8 = !c.NaNQuantile && rapid.IntRange(0, 9).Draw(t, "badutf8") == 9
+	if rapid.IntRange(0, 2).Draw(t, "tworeplicas") == 2 {
+		c.Replicas = 2
+	}
+	if !c.NaNQuantile && rapid.IntRange(0, 3).Draw(t, "refuse") == 3 {
+		reps := max(1, c.Replicas)
+		if rapid.Bool().Draw(t, "wholeshard") {
+			s := rapid.IntRange(0, c.Shards-1).Draw(t, "refshard")
+			for r := 0; r < reps; r++ {
+				c.RefuseStart |= 1 << (s*4 + r)
+			}
+		} else {
+			for s := 0; s < c.Shards; s++ {
+				for r := 0; r < reps; r++ {
+					if rapid.IntRange(0, 2).Draw(t, "refbit") == 2 {
+						c.RefuseStart |= 1 << (s*4 + r)
+					}
+				}
+			}
+		}
+	}
 	c.PageOffset = rapid.IntRange(0, len(c.Corpus)+1).Draw(t, "pageoffset")
 	c.PageSize = rapid.IntRange(0, len(c.Corpus)+1).Draw(t, "pagesize")
 	return c
@@ -87,7 +118,8 @@ func runProxy(c ProxyCase) (evid.Result, error) {
 		c.Aggs = []model.AggSpec{{Func: "count", GroupBy: "svc"}}
 		res.Labels = append(res.Labels, "group-values-with-invalid-utf8")
 	}
-	cl, err := harness.NewCluster(evid.ScratchDir("c19p"), c.Shards, 1, harness.StoreOpts{}, nil, true)
+	reps := max(1, c.Replicas)
+	cl, err := harness.NewCluster(evid.ScratchDir("c19p"), c.Shards, reps, harness.StoreOpts{}, nil, true)
 	if err != nil {
 		return res, err
 	}
@@ -103,12 +135,14 @@ func runProxy(c ProxyCase) (evid.Result, error) {
 			if len(part) == 0 {
 				continue
 			}
-			if err := cl.Stores[s][0].Bulk(part); err != nil {
-				return res, err
-			}
-			cl.Stores[s][0].WaitIdle()
-			if f == 0 {
-				cl.Stores[s][0].Seal()
+			for r := 0; r < reps; r++ {
+				if err := cl.Stores[s][r].Bulk(part); err != nil {
+					return res, err
+				}
+				cl.Stores[s][r].WaitIdle()
+				if f == 0 {
+					cl.Stores[s][r].Seal()
+				}
 			}
 		}
 	}
@@ -142,9 +176,41 @@ func runProxy(c ProxyCase) (evid.Result, error) {
 		}
 		return res, nil
 	}
+	shardLeft := make([]bool, c.Shards) // has a replica that takes the request
+	for s := 0; s < c.Shards; s++ {
+		for r := 0; r < reps; r++ {
+			if c.RefuseStart&(1<<(s*4+r)) != 0 {
+				cl.Clients[s][r].RefuseStart = status.Error(codes.Unavailable, "scripted: replica unreachable while the search is started")
+			} else {
+				shardLeft[s] = true
+			}
+		}
+	}
 	start, err := cl.Ing.StartAsyncSearch(ctx, ar)
+	for s := range cl.Clients {
+		for r := range cl.Clients[s] {
+			cl.Clients[s][r].RefuseStart = nil
+		}
+	}
+	if c.RefuseStart != 0 {
+		res.Labels = append(res.Labels, "replicas-unreachable-at-the-start")
+	}
 	if err != nil {
-		return res, evid.Failf("startasync-error", "%q: %v", text, err)
+		if !slices.Contains(shardLeft, false) {
+			return res, evid.Failf("startasync-error", "%q: %v (every shard had a replica that takes the request)", text, err)
+		}
+		// a shard without a reachable replica: the start is refused, nothing to fetch
+		res.Labels = append(res.Labels, "start-refused:a-shard-is-unreachable")
+		res.NonTrivial = true
+		// the shards asked before the unreachable one are running the search: let them finish
+		for s := range cl.Stores {
+			for r := range cl.Stores[s] {
+				if err := cl.Stores[s][r].WaitAsyncIdle(30 * time.Second); err != nil {
+					return res, evid.Failf("async-never-done", "after a refused start: %v", err)
+				}
+			}
+		}
+		return res, nil
 	}
 	deadline := time.Now().Add(30 * time.Second)
 	var fr search.FetchAsyncSearchResultResponse
